@@ -138,6 +138,29 @@ func stlTCP() []byte {
 	return b.Bytes()
 }
 
+// Large: text documents of about 9 KB whose cue text is made of two-byte characters all the way, in two alignments
+// (ASCII prefix of even / odd length), so that every 4096-byte read boundary falls inside a character in one of
+// them. Used where the size matters (file API conversions, delivery schedules), not for per-offset fault sweeps.
+func Large() []Doc {
+	var out []Doc
+	for pad := 0; pad < 2; pad++ {
+		p := strings.Repeat("p", pad)
+		var srt, vtt, ssa strings.Builder
+		vtt.WriteString("WEBVTT\n\n")
+		ssa.WriteString("[Script Info]\nTitle: t\n\n[Events]\nFormat: Marked, Start, End, Style, Name, MarginL, MarginR, MarginV, Effect, Text\n")
+		for i := 0; i < 90; i++ {
+			text := p + strings.Repeat("\u00e9\u00e8", 22) + fmt.Sprint(i)
+			fmt.Fprintf(&srt, "%d\n00:%02d:%02d,000 --> 00:%02d:%02d,800\n%s\n\n", i+1, i/60, i%60, i/60, i%60, text)
+			fmt.Fprintf(&vtt, "00:%02d:%02d.000 --> 00:%02d:%02d.800\n%s\n\n", i/60, i%60, i/60, i%60, text)
+			fmt.Fprintf(&ssa, "Dialogue: Marked=0,0:%02d:%02d.00,0:%02d:%02d.80,,,0,0,0,,%s\n", i/60, i%60, i/60, i%60, text)
+		}
+		out = append(out, Doc{fmt.Sprintf("srt-large-nonascii-%d", pad), "srt", []byte(srt.String()), true},
+			Doc{fmt.Sprintf("vtt-large-nonascii-%d", pad), "vtt", []byte(vtt.String()), true},
+			Doc{fmt.Sprintf("ssa-large-nonascii-%d", pad), "ssa", []byte(ssa.String()), true})
+	}
+	return out
+}
+
 var extra []Doc // registered by other packages (e.g. transport streams from the teletext encoder)
 
 // Register adds documents (used for .ts samples built by ref/teletext).
